@@ -2,6 +2,7 @@ package rules
 
 import (
 	"fmt"
+	"go/token"
 	"go/types"
 	"sort"
 	"strings"
@@ -16,9 +17,9 @@ import (
 
 func init() {
 	Register(&Rule{ID: "R-ERR-3", Props: []string{"C19"}, Floor: 10,
-		Doc: "every function started by a `go` statement in lib/query registers, before any instruction that can panic, a deferred function that calls recover() itself on every path from its entry to its exit; " +
+		Doc: "every function started by a `go` statement in lib/query (a closure, a function, a method started on a struct value or pointer; the wrapper of a method value is looked through) registers, before any instruction that can panic — allocations, stores to local cells, and reads of a field of its own struct parameter/receiver when that is held by value or is a pointer that is provably non-nil at every call and go statement that reaches the function do not count — a deferred function that calls recover() itself on every path from its entry to its exit; " +
 			"a recover() that is reached only under a condition (`if !gm.HasError()`, `if err == nil`) leaves a second failing worker unrecovered: the process dies with a Go panic instead of a csvq error",
-		Controls: []string{"CtlConditionalRecover", "CtlNoRecover"},
+		Controls: []string{"CtlConditionalRecover", "CtlNoRecover", "CtlReceiverReadBeforeRecover"},
 		Run:      ruleErr3})
 	Register(&Rule{ID: "R-ERR-4", Props: []string{"C19"}, Floor: 18,
 		Doc: "for every call of a field-lookup function of lib/query (result (int, error), reaches Header.FieldIndex/FieldNumberIndex; the int is -1 on failure): each use of the int other than passing it on in a return is dominated by the `err == nil` outcome of that call, " +
@@ -53,6 +54,145 @@ func e19CannotPanic(in ssa.Instruction) bool {
 	return false
 }
 
+// e19Unwrap replaces the synthetic wrappers the compiler puts around a method value or method expression
+// (`f := x.m; go f()`) by the method they call: the wrapper only forwards, the goroutine body is the method.
+func e19Unwrap(fns []*ssa.Function) []*ssa.Function {
+	var out []*ssa.Function
+	for _, f := range fns {
+		for i := 0; i < 3 && f.Synthetic != "" && f.Blocks != nil; i++ {
+			var inner []*ssa.Function
+			for _, call := range core.Calls(f) {
+				if g := call.Common().StaticCallee(); g != nil {
+					inner = append(inner, g)
+				}
+			}
+			if len(inner) != 1 {
+				break
+			}
+			f = inner[0]
+		}
+		out = append(out, f)
+	}
+	return out
+}
+
+// e19HarmlessPrefix: the instructions that may precede the registration of the recovering defer in body —
+// those of e19CannotPanic and reads of the goroutine's own inputs that cannot fault: a field of a struct
+// parameter or receiver held by value, a field read through a pointer parameter or receiver that is non-nil
+// at every place body is called or started from (`gm := e.gm` in a method started as `go e.routine(…)` on a
+// struct the spawner has just built), loads of local cells and captured variables.
+func e19HarmlessPrefix(c *Ctx, body *ssa.Function) func(ssa.Instruction) bool {
+	valid := map[ssa.Value]bool{} // addresses known to be dereferenceable
+	// a parameter that a nested closure captures lives in a cell: its loads stand for the parameter
+	paramOf := func(v ssa.Value) *ssa.Parameter {
+		if p, ok := v.(*ssa.Parameter); ok {
+			return p
+		}
+		u, ok := v.(*ssa.UnOp)
+		if !ok || u.Op != token.MUL {
+			return nil
+		}
+		al, ok := u.X.(*ssa.Alloc)
+		if !ok {
+			return nil
+		}
+		vals, complete := core.StoresTo(al)
+		if !complete || len(vals) != 1 {
+			return nil
+		}
+		p, _ := vals[0].(*ssa.Parameter)
+		return p
+	}
+	return func(in ssa.Instruction) bool {
+		if e19CannotPanic(in) {
+			return true
+		}
+		switch x := in.(type) {
+		case *ssa.Field:
+			return true
+		case *ssa.FieldAddr:
+			ok := false
+			if _, isCell := x.X.(*ssa.Alloc); isCell {
+				ok = true
+			} else if prm := paramOf(x.X); prm != nil {
+				ok = e19ParamNeverNil(c, body, prm)
+			} else {
+				ok = valid[x.X]
+			}
+			if ok {
+				valid[x] = true
+			}
+			return ok
+		case *ssa.UnOp:
+			if x.Op != token.MUL {
+				return false
+			}
+			switch x.X.(type) {
+			case *ssa.Alloc, *ssa.FreeVar:
+				return true
+			}
+			return valid[x.X]
+		}
+		return false
+	}
+}
+
+// e19ParamNeverNil: every call and go statement that reaches body binds a provably non-nil value to prm.
+func e19ParamNeverNil(c *Ctx, body *ssa.Function, prm *ssa.Parameter) bool {
+	idx := -1
+	for i, p := range body.Params {
+		if p == prm {
+			idx = i
+		}
+	}
+	if idx < 0 {
+		return false
+	}
+	edges := c.P.RealCallers(body)
+	if len(edges) == 0 {
+		return false
+	}
+	for _, e := range edges {
+		if e.Site == nil || e.Site.Common().StaticCallee() != body || idx >= len(e.Site.Common().Args) {
+			return false
+		}
+		arg := e.Site.Common().Args[idx]
+		caller := e.Caller.Func
+		if fv, ok := arg.(*ssa.FreeVar); ok && caller.Synthetic != "" {
+			// a bound-method wrapper: the receiver is what the method value was made from
+			k := -1
+			for i, x := range caller.FreeVars {
+				if x == fv {
+					k = i
+				}
+			}
+			made := 0
+			for _, fn := range c.P.SrcFuncs() {
+				for _, b := range fn.Blocks {
+					for _, in := range b.Instrs {
+						mc, ok := in.(*ssa.MakeClosure)
+						if !ok || mc.Fn != caller {
+							continue
+						}
+						if k < 0 || k >= len(mc.Bindings) || core.ClassifyNil(mc.Bindings[k], mc) != core.NonNil {
+							return false
+						}
+						made++
+					}
+				}
+			}
+			if made == 0 {
+				return false
+			}
+			continue
+		}
+		if core.ClassifyNil(arg, e.Site) != core.NonNil {
+			return false
+		}
+	}
+	return true
+}
+
 // e19RecoverVerdict classifies a deferred function: "" = recovers on every path.
 func e19RecoverVerdict(c *Ctx, d *ssa.Function) (kind, why string) {
 	if d == nil || d.Blocks == nil {
@@ -78,6 +218,10 @@ func e19RecoverVerdict(c *Ctx, d *ssa.Function) (kind, why string) {
 }
 
 func ruleErr3(c *Ctx) {
+	start := len(c.Obs)
+	defer func() {
+		c.negControls(start, "okUnconditionalRecover", "okRecoverInMethodOfFreshStruct", "okRecoverInMethodByValue", "okRecoverInMethodValue:", "okRecoverInMethodValueOfPointer")
+	}()
 	for _, fn := range c.P.FuncsIn(true, "lib/query") {
 		for _, call := range core.Calls(fn) {
 			g, ok := call.(*ssa.Go)
@@ -91,6 +235,7 @@ func ruleErr3(c *Ctx) {
 				c.Unknown(c.KeyAt(fn, "go <unresolved>"), c.Pos(g), "the operand of the go statement does not resolve to a function")
 				continue
 			}
+			targets = e19Unwrap(targets)
 			sortFuncs(c.P, targets)
 			for _, body := range targets {
 				name := c.P.FnRef(body)
@@ -101,6 +246,7 @@ func ruleErr3(c *Ctx) {
 				c.Touch(body)
 				// candidate defers: registered in the entry block before anything that can panic
 				bestKind, bestWhy := "no deferred recover", fmt.Sprintf("goroutine body %s registers no defer before its first instruction that can panic", name)
+				harmless := e19HarmlessPrefix(c, body)
 				for _, in := range body.Blocks[0].Instrs {
 					if d, ok := in.(*ssa.Defer); ok {
 						kind, why := e19RecoverVerdict(c, d.Common().StaticCallee())
@@ -113,7 +259,7 @@ func ruleErr3(c *Ctx) {
 						}
 						continue
 					}
-					if !e19CannotPanic(in) {
+					if !harmless(in) {
 						break
 					}
 				}
